@@ -1,5 +1,4 @@
-\* case generator: every well-formed tree with MinEmit..MaxN nodes over the given alphabet
-\* (model checking), or random growth walks (-simulate); one JSON record per tree
+\* case generator (-simulate num=1 -depth K -seed S): K random well-formed trees with 6..12 nodes, depth <= 4
 CONSTANTS
   MaxN = 12
   MaxDepth = 4
@@ -7,7 +6,6 @@ CONSTANTS
   BranchKinds = {"Fork", "Hierarchical"}
   Fanouts = {1, 2, 3}
   ComputeFanouts = {1, 2, 3}
-  BranchTags = {1, 2, 3}
   MinEmit = 6
   AppendComputes = TRUE
   CountOwn = FALSE
